@@ -161,7 +161,63 @@ Proof.
 Qed.
 Print Assumptions C06_response_only_for_latest_initiation.
 
+(* Round 9b: [evs], [evs2] and [e] in the history theorems above and below range over ALL events
+   of the model, including the composite event BRespWindow (something happens inside a handshake
+   worker between ConsumeMessageResponse and BeginSymmetricSession). *)
+(* ------------------------- event inside the response-processing window *)
+(* For EVERY state: when the in-window event leaves the handshake of the peer in any state but
+   responseConsumed, the worker that consumed the response installs nothing: outputs, index
+   table, key slots, handshake, lastHandshake counter are those the in-window event alone
+   produced; only rxBytes counts the response. *)
+Theorem C06_window_supersede_no_session : forall st now src oidx m w p,
+  resp_phase1 st m = Some p ->
+  let st1 := set_peer st p (with_response_consumed (peers st p) src m) in
+  let r2 := wact_step st1 now oidx w in
+  hs_state (peers (fst r2) p) <> 4 ->
+  let r := resp_window st now src oidx m w in
+  snd r = snd r2 /\ table (fst r) = table (fst r2) /\ nseq (fst r) = nseq (fst r2) /\
+  kcur (peers (fst r) p) = kcur (peers (fst r2) p) /\
+  kprev (peers (fst r) p) = kprev (peers (fst r2) p) /\
+  knext (peers (fst r) p) = knext (peers (fst r2) p) /\
+  lh (peers (fst r) p) = lh (peers (fst r2) p) /\
+  hs_state (peers (fst r) p) = hs_state (peers (fst r2) p) /\
+  hs_local (peers (fst r) p) = hs_local (peers (fst r2) p) /\
+  rx (peers (fst r) p) = rx (peers (fst r2) p) + m_len m /\
+  forall q, q <> p -> peers (fst r) q = peers (fst r2) q.
+Proof. exact window_supersede_no_session. Qed.
+Print Assumptions C06_window_supersede_no_session.
+
+(* the premise holds whenever a new initiation for the peer left inside the window, or an
+   initiation of the peer was answered there *)
+Theorem C06_window_new_initiation_supersedes : forall st now oidx w to p s ts,
+  In (OInit to p s ts) (snd (wact_step st now oidx w)) ->
+  hs_state (peers (fst (wact_step st now oidx w)) p) = 1.
+Proof. exact wact_new_initiation. Qed.
+Print Assumptions C06_window_new_initiation_supersedes.
+
+Theorem C06_window_answered_initiation_supersedes : forall st now oidx w to p s r o,
+  In (OResp to p s r o) (snd (wact_step st now oidx w)) ->
+  hs_state (peers (fst (wact_step st now oidx w)) p) = 0.
+Proof. exact wact_answered_initiation. Qed.
+Print Assumptions C06_window_answered_initiation_supersedes.
+
+Theorem C06_window_untouched_completes : forall st now src oidx m w p,
+  resp_phase1 st m = Some p ->
+  let st1 := set_peer st p (with_response_consumed (peers st p) src m) in
+  let r2 := wact_step st1 now oidx w in
+  hs_state (peers (fst r2) p) = 4 ->
+  resp_window st now src oidx m w =
+    (fst (begin_initiator (fst r2) p src m), snd r2 ++ snd (begin_initiator (fst r2) p src m)).
+Proof. exact window_untouched_completes. Qed.
+Print Assumptions C06_window_untouched_completes.
+
+Theorem C06_window_unconsumable_response_inert : forall st now src oidx m,
+  m_kind m = KResp -> loaded st = false -> resp_phase1 st m = None -> recv st now src oidx m = (st, []).
+Proof. exact window_unconsumable_response_inert. Qed.
+Print Assumptions C06_window_unconsumable_response_inert.
+
 (* --------------------------------------- last sentence: emitted timestamps *)
+(* is_reset: BShift, BRestart, and a window event that contains the time-shift hook *)
 Theorem C06_emitted_timestamps_increasing : forall cfg now0 evs p,
   forallb (fun e => negb (is_reset e)) evs = true -> mono_from now0 evs ->
   StronglySorted N.lt (emitted_ts p (outs step (init cfg now0) evs)).
@@ -265,3 +321,32 @@ Example C06_nonvacuous_emitted :
   = [stamp_val (T0 + 1000000); stamp_val (T0 + 6001000000)]
   /\ stamp_val (T0 + 1000000) < stamp_val (T0 + 6001000000).
 Proof. split; vm_compute; reflexivity. Qed.
+
+(* window events: I1 (index 50) left; its answer R1 arrives and, inside the worker's window,
+   (a) 6 s pass and I2 (index 51) leaves: only the initiation is seen, no session, handshake is
+       the one of I2 with its index still a handshake index; R2 then opens the session;
+   (b) SendHandshakeInitiation inside RekeyTimeout: nothing happens, R1 completes (keepalive);
+   (c) the peer's own initiation is answered: a response leaves, the responder session sits in
+       next, no initiator session *)
+Example C06_nonvacuous_window_new_initiation :
+  let evs := [ ev 1000000 50 (BTun 1 80);
+               ev 2000000 51 (BRespWindow 1 (ex_resp 20 50 1 []) (WShiftInitiate 1 6000000000));
+               ev 3000000 0 (BMsg 1 (ex_resp 21 51 2 [])) ] in
+  map (@length out) (outs step (init [(1, 0, 1)] T0) evs) = [1; 1; 1]%nat /\
+  let st := final step (init [(1, 0, 1)] T0) (firstn 2 evs) in
+  (kcur (peers st 1), knext (peers st 1), lh (peers st 1), hs_state (peers st 1), hs_local (peers st 1), table st)
+  = (None, None, 0, 1, 51, [{| t_idx := 51; t_peer := 1; t_hs := true |}]) /\
+  kcur (peers (final step (init [(1, 0, 1)] T0) evs) 1) = Some {| k_local := 51; k_remote := 21; k_init := true |}.
+Proof. vm_compute. repeat split; reflexivity. Qed.
+
+Example C06_nonvacuous_window_suppressed_and_peer_initiation :
+  map (@length out) (outs step (init [(1, 0, 1)] T0)
+     [ ev 1000000 50 (BTun 1 80);
+       ev 2000000 51 (BRespWindow 1 (ex_resp 20 50 1 []) (WInitiate 1 1)) ]) = [1; 1]%nat /\
+  let evs := [ ev 1000000 50 (BTun 1 80);
+               ev 2000000 70 (BRespWindow 1 (ex_resp 20 50 1 []) (WMsg 1 (ex_init 500 11 1 [] false))) ] in
+  outs step (init [(1, 0, 1)] T0) evs = [[OInit 1 1 50 (stamp_val (T0 + 1000000))]; [OResp 1 1 70 11 true]] /\
+  let st := final step (init [(1, 0, 1)] T0) evs in
+  (kcur (peers st 1), knext (peers st 1), lh (peers st 1), hs_state (peers st 1))
+  = (None, Some {| k_local := 70; k_remote := 11; k_init := false |}, 0, 0).
+Proof. vm_compute. repeat split; reflexivity. Qed.
